@@ -29,14 +29,14 @@ SPEC = dict(
     coq_targets=["props/C21.vo"],
     drivers=[
         dict(name="policy", kind="main", pkg="./zzverif/c21",
-             n=dict(quick=450, thorough=12000),
+             n=dict(quick=560, thorough=12000),
              timeout=dict(quick=300, thorough=1800),
              ev=dict(requires=["V.lib.Bytes", "V.models.Policy"], case_type="Policy.case",
                      mismatch="Policy.mismatch", monitor="Policy.monitor_fail", prelude=_PRELUDE)),
     ],
     classify=classify,
     rule=("a fixed list of the shapes named in the property (no declaration, interface mismatch, deny and allow both matching, "
-          "the four levels disagreeing in both directions, on-core-desktop true/false on classic / core / core desktop as allow and as deny constraint at each of the four levels and for installation on both sides and both levels, device scope with and without a model and with friendly stores, $SLOT_PUBLISHER_ID, nested map/list attribute constraints, slots-per-plug forms, $PLUG_PUBLISHER_ID with and without "
+          "the four levels disagreeing in both directions, on-core-desktop true/false on classic / core / core desktop as allow and as deny constraint at each of the four levels and for installation on both sides and both levels, publisher-id lists of 2-3 entries with $PLUG/$SLOT_PUBLISHER_ID or an unknown $X in every position x resolvable / unresolvable x the compared publisher equal to an earlier / later literal, the special's value, nothing or unset, on plug and slot rules as allow and deny, snap-id lists for installation, device scope with and without a model and with friendly stores, $SLOT_PUBLISHER_ID, nested map/list attribute constraints, slots-per-plug forms, $PLUG_PUBLISHER_ID with and without "
           "declarations) followed by random candidates: 40% Check, 40% CheckAutoConnect, 20% InstallCandidate.Check. Each has "
           "a random environment (system kind classic / core / core desktop, os id, optional model brand/model/store, optional store assertion "
           "with friendly stores), plug and slot (name, interface from 3, snap type from app/gadget/kernel/os/snapd/base, "
